@@ -214,8 +214,9 @@ Lemma zip_open f g (Hf : bitop f g) na nb nr a b ca cb cr :
       (ra = [] \/ rb = []) /\
       wf o /\ bit ca' /\ bit cb' /\ bit cr' /\
       (na = false -> ca' = ca) /\ (nb = false -> cb' = cb) /\ (nr = false -> cr' = cr) /\
+      M = B ^ Z.of_nat (length o) /\ 0 <= val o < M /\
       0 < M /\ val a = val a1 + M * val ra /\ val b = val b1 + M * val rb /\
-      val (o ++ ra) = val o + M * val ra /\ val (o ++ ra ++ rb) = val o + M * val (ra ++ rb) /\
+      (forall l, val (o ++ l) = val o + M * val l) /\
       wf ra /\ wf rb /\ 0 <= val ra /\ 0 <= val rb /\ 0 <= val a1 < M /\ 0 <= val b1 < M /\
       0 <= negv na M (val a1) ca ca' < M /\ 0 <= negv nb M (val b1) cb cb' < M /\ 0 <= m < M /\
       (forall u v, f (negv na M (val a1) ca ca' + M * u) (negv nb M (val b1) cb cb' + M * v) = m + M * f u v) /\
@@ -230,8 +231,9 @@ Proof.
   pose proof Ha as Hwa. pose proof Hb as Hwb. rewrite Ea in Hwa. rewrite Eb in Hwb.
   apply wf_app in Hwa as [Hwa1 Hwra]. apply wf_app in Hwb as [Hwb1 Hwrb].
   pose proof (val_bound a1 Hwa1) as Ba1. pose proof (val_bound b1 Hwb1) as Bb1. rewrite La in Ba1. rewrite Lb in Bb1.
+  pose proof (val_bound o Hwo) as Bo.
   repeat match goal with |- _ /\ _ => split end; try assumption; try (apply val_nonneg; assumption); try lia;
-    try solve [apply B_pow; lia | rewrite val_app; reflexivity].
+    try solve [apply B_pow; lia | intros; rewrite val_app; reflexivity].
   - rewrite Ea at 1. rewrite val_app, La. reflexivity.
   - rewrite Eb at 1. rewrite val_app, Lb. reflexivity.
 Qed.
@@ -243,7 +245,7 @@ Ltac tc_start f g Hfg na nb nr ca cb cr a b Ha Hb :=
                 ltac:(first [exact bit0|exact bit1])) as Z;
   destruct (zip_loop f na nb nr ca cb cr a b) as [[[?o ?ra] ?rb] [[?ca' ?cb'] ?cr']];
   destruct Z as (a1 & b1 & m & M & Ea & Eb & La & Lb & Hr & Hwo & Hca & Hcb & Hcr & Ia & Ib & Ir &
-                 HM & Va & Vb & Vo & Vo2 & Hwra & Hwrb & Pra & Prb & Ba1 & Bb1 & Hta & Htb & Hm & Hfm & Hvo);
+                 EM & Bo & HM & Va & Vb & Vol & Hwra & Hwrb & Pra & Prb & Ba1 & Bb1 & Hta & Htb & Hm & Hfm & Hvo);
   cbv beta iota delta [negv] in *.
 
 (* split on which operand is longer; rewrites the length tests of the model *)
@@ -287,6 +289,139 @@ Proof.
   - cbn [orb Z.eqb assert_ bind]. exists o. split; [reflexivity|]. split; [exact Hwo|].
     tc_fin Hfm 0 (- val (s0 :: rb) - 1 + cb'). lia.
   - tc_dead Hcb cb'. cbn [orb Z.eqb assert_ bind]. exists (o ++ r0 :: ra). split; [reflexivity|].
-    split; [apply wf_app; auto|]. rewrite Vo.
+    split; [apply wf_app; auto|]. rewrite Vol.
     tc_fin Hfm (val (r0 :: ra)) (-1). lia.
+Qed.
+
+Lemma push1_spec c l : wf l -> bit c ->
+  wf (push1 c l) /\ val (push1 c l) = val l + B ^ Z.of_nat (length l) * c.
+Proof.
+  intros Hl [-> | ->]; unfold push1; cbn [Z.eqb negb].
+  - split; [exact Hl|ring].
+  - split; [apply wf_app; split; [exact Hl|apply wf_cons; split; [unfold digit; pose proof B_gt1; lia|apply wf_nil]]|].
+    rewrite val_snoc. reflexivity.
+Qed.
+
+Lemma pow_app_len (o t : list Z) :
+  B ^ Z.of_nat (length (o ++ t)) = B ^ Z.of_nat (length o) * B ^ Z.of_nat (length t).
+Proof. rewrite app_length, Nat2Z.inj_add, Z.pow_add_r by lia. reflexivity. Qed.
+
+Ltac tc_tail pre flip post c1 c2 l Hw Hb1 Hb2 :=
+  let T := fresh "T" in
+  pose proof (tail_loop_spec pre flip post l c1 c2 Hw Hb1 Hb2) as T;
+  pose proof (val_bound l Hw) as Bl;
+  destruct (tail_loop pre flip post c1 c2 l) as [?t [?c1' ?c2']];
+  destruct T as (Hwt & Llt & Hc1' & Hc2' & I1 & I2 & Hvt); cbn zeta in Hvt; destruct Hvt as (Htl & Hvt);
+  pose proof (val_bound t Hwt) as Bt; rewrite Llt in Bt;
+  set (M' := B ^ Z.of_nat (length l)) in *;
+  assert (HM' : 0 < M') by (apply B_pow; lia);
+  cbv beta iota delta [negv] in *.
+
+Ltac tc_bits := repeat match goal with H : bit _ |- _ => destruct H as [H | H]; subst end.
+
+Theorem bitand_neg_pos_spec a b : canon a -> canon b -> a <> [] -> b <> [] ->
+  exists d, bitand_neg_pos a b = Ret d /\ wf d /\ val d = Z.land (- val a) (val b).
+Proof.
+  intros Ha Hb Na Nb. pose proof (canon_val_pos a Ha Na) as Pa. pose proof (canon_val_pos b Hb Nb) as Pb.
+  unfold bitand_neg_pos. tc_start Z.land andb bitop_land true false false 1 0 0 a b Ha Hb.
+  rewrite Va, Vb in *. tc_lens a1 b1 Ea Eb La Lb Hr ra rb.
+  - tc_dead Hca ca'. cbn [orb Z.eqb assert_ bind]. exists o. split; [reflexivity|]. split; [exact Hwo|].
+    tc_fin Hfm (-1) 0. lia.
+  - tc_dead Hca ca'. cbn [orb Z.eqb assert_ bind app]. exists (o ++ s0 :: rb). split; [reflexivity|].
+    split; [apply wf_app; auto|]. rewrite Vol. tc_fin Hfm (-1) (val (s0 :: rb)). lia.
+  - cbn [orb Z.eqb assert_ bind]. exists o. split; [rewrite firstn_app_exact by congruence; reflexivity|].
+    split; [exact Hwo|]. tc_fin Hfm (- val (r0 :: ra) - 1 + ca') 0. lia.
+Qed.
+
+Theorem bitand_neg_neg_spec a b : canon a -> canon b -> a <> [] -> b <> [] ->
+  exists d, bitand_neg_neg a b = Ret d /\ wf d /\ - val d = Z.land (- val a) (- val b).
+Proof.
+  intros Ha Hb Na Nb. pose proof (canon_val_pos a Ha Na) as Pa. pose proof (canon_val_pos b Hb Nb) as Pb.
+  unfold bitand_neg_neg. tc_start Z.land andb bitop_land true true true 1 1 1 a b Ha Hb.
+  rewrite Va, Vb in *. tc_lens a1 b1 Ea Eb La Lb Hr ra rb.
+  - tc_dead Hca ca'. tc_dead Hcb cb'. cbn [orb Z.eqb assert_ bind].
+    destruct (push1_spec cr' o Hwo Hcr) as [Hwp Hvp]. exists (push1 cr' o). split; [reflexivity|].
+    split; [exact Hwp|]. rewrite Hvp, <- EM. tc_fin Hfm (-1) (-1). lia.
+  - tc_dead Hca ca'. cbn [orb Z.eqb assert_ bind app].
+    tc_tail true false true cb' cr' (s0 :: rb) Hwrb Hcb Hcr.
+    assert (c1' = 0) by (clear Hfm; tc_bits; lia). subst c1'. cbn [orb Z.eqb assert_ bind].
+    assert (Hwd : wf (o ++ t)) by (apply wf_app; auto).
+    destruct (push1_spec c2' (o ++ t) Hwd Hc2') as [Hwp Hvp]. exists (push1 c2' (o ++ t)).
+    split; [reflexivity|]. split; [exact Hwp|]. rewrite Hvp, pow_app_len, Llt, <- EM, Vol, Hvt. fold M'.
+    tc_fin Hfm (-1) (- val (s0 :: rb) - 1 + cb'). lia.
+  - tc_dead Hcb cb'. cbn [orb Z.eqb assert_ bind app].
+    tc_tail true false true ca' cr' (r0 :: ra) Hwra Hca Hcr.
+    assert (c1' = 0) by (clear Hfm; tc_bits; lia). subst c1'. cbn [orb Z.eqb assert_ bind].
+    assert (Hwd : wf (o ++ t)) by (apply wf_app; auto).
+    destruct (push1_spec c2' (o ++ t) Hwd Hc2') as [Hwp Hvp]. exists (push1 c2' (o ++ t)).
+    split; [reflexivity|]. split; [exact Hwp|]. rewrite Hvp, pow_app_len, Llt, <- EM, Vol, Hvt. fold M'.
+    tc_fin Hfm (- val (r0 :: ra) - 1 + ca') (-1). lia.
+Qed.
+
+(* the result block of an `|` with a negative operand is non-zero, so its negate-carry dies *)
+Ltac tc_m_nonzero Hfm m :=
+  assert (Hm0 : m <> 0) by
+    (let H0 := fresh in pose proof (Hfm 0 0) as H0; rewrite ?Z.mul_0_r, ?Z.add_0_r in H0;
+     change (Z.lor 0 0) with 0 in H0; rewrite ?Z.mul_0_r, ?Z.add_0_r in H0;
+     intros E0; rewrite E0 in H0; apply Z.lor_eq_0_iff in H0; lia).
+
+Theorem bitor_pos_neg_spec a b : canon a -> canon b -> a <> [] -> b <> [] ->
+  exists d, bitor_pos_neg a b = Ret d /\ wf d /\ - val d = Z.lor (val a) (- val b).
+Proof.
+  intros Ha Hb Na Nb. pose proof (canon_val_pos a Ha Na) as Pa. pose proof (canon_val_pos b Hb Nb) as Pb.
+  unfold bitor_pos_neg. tc_start Z.lor orb bitop_lor false true true 0 1 1 a b Ha Hb.
+  rewrite Va, Vb in *. tc_lens a1 b1 Ea Eb La Lb Hr ra rb.
+  - tc_dead Hcb cb'. tc_m_nonzero Hfm m. tc_dead Hcr cr'. cbn [orb Z.eqb assert_ bind].
+    exists o. split; [reflexivity|]. split; [exact Hwo|]. tc_fin Hfm 0 (-1). lia.
+  - cbn [orb Z.eqb assert_ bind app].
+    tc_tail true false true cb' cr' (s0 :: rb) Hwrb Hcb Hcr.
+    assert (c1' = 0) by (clear Hfm; tc_bits; lia). subst c1'. cbn [orb Z.eqb assert_ bind].
+    assert (c2' = 0).
+    { destruct Hcb as [E | E]; subst cb'.
+      - tc_m_nonzero Hfm m. clear Hfm. tc_bits; lia.
+      - clear Hfm. tc_bits; lia. }
+    subst c2'. cbn [orb Z.eqb assert_ bind].
+    exists (o ++ t). split; [reflexivity|]. split; [apply wf_app; auto|]. rewrite Vol, Hvt.
+    tc_fin Hfm 0 (- val (s0 :: rb) - 1 + cb'). lia.
+  - tc_dead Hcb cb'. tc_m_nonzero Hfm m. tc_dead Hcr cr'. cbn [orb Z.eqb assert_ bind].
+    exists o. split; [rewrite firstn_app_exact by congruence; reflexivity|]. split; [exact Hwo|].
+    tc_fin Hfm (val (r0 :: ra)) (-1). lia.
+Qed.
+
+Theorem bitor_neg_pos_spec a b : canon a -> canon b -> a <> [] -> b <> [] ->
+  exists d, bitor_neg_pos a b = Ret d /\ wf d /\ - val d = Z.lor (- val a) (val b).
+Proof.
+  intros Ha Hb Na Nb. pose proof (canon_val_pos a Ha Na) as Pa. pose proof (canon_val_pos b Hb Nb) as Pb.
+  unfold bitor_neg_pos. tc_start Z.lor orb bitop_lor true false true 1 0 1 a b Ha Hb.
+  rewrite Va, Vb in *. tc_lens a1 b1 Ea Eb La Lb Hr ra rb.
+  - tc_dead Hca ca'. tc_m_nonzero Hfm m. tc_dead Hcr cr'. cbn [orb Z.eqb assert_ bind].
+    exists o. split; [reflexivity|]. split; [exact Hwo|]. tc_fin Hfm (-1) 0. lia.
+  - tc_dead Hca ca'. tc_m_nonzero Hfm m. tc_dead Hcr cr'. cbn [orb Z.eqb assert_ bind].
+    exists o. split; [reflexivity|]. split; [exact Hwo|]. tc_fin Hfm (-1) (val (s0 :: rb)). lia.
+  - cbn [orb Z.eqb assert_ bind app].
+    tc_tail true false true ca' cr' (r0 :: ra) Hwra Hca Hcr.
+    assert (c1' = 0) by (clear Hfm; tc_bits; lia). subst c1'. cbn [orb Z.eqb assert_ bind].
+    assert (c2' = 0).
+    { destruct Hca as [E | E]; subst ca'.
+      - tc_m_nonzero Hfm m. clear Hfm. tc_bits; lia.
+      - clear Hfm. tc_bits; lia. }
+    subst c2'. cbn [orb Z.eqb assert_ bind].
+    exists (o ++ t). split; [reflexivity|]. split; [apply wf_app; auto|]. rewrite Vol, Hvt.
+    tc_fin Hfm (- val (r0 :: ra) - 1 + ca') 0. lia.
+Qed.
+
+Theorem bitor_neg_neg_spec a b : canon a -> canon b -> a <> [] -> b <> [] ->
+  exists d, bitor_neg_neg a b = Ret d /\ wf d /\ - val d = Z.lor (- val a) (- val b).
+Proof.
+  intros Ha Hb Na Nb. pose proof (canon_val_pos a Ha Na) as Pa. pose proof (canon_val_pos b Hb Nb) as Pb.
+  unfold bitor_neg_neg. tc_start Z.lor orb bitop_lor true true true 1 1 1 a b Ha Hb.
+  rewrite Va, Vb in *. tc_lens a1 b1 Ea Eb La Lb Hr ra rb.
+  - tc_dead Hca ca'. tc_dead Hcb cb'. tc_m_nonzero Hfm m. tc_dead Hcr cr'. cbn [orb Z.eqb assert_ bind].
+    exists o. split; [reflexivity|]. split; [exact Hwo|]. tc_fin Hfm (-1) (-1). lia.
+  - tc_dead Hca ca'. tc_m_nonzero Hfm m. tc_dead Hcr cr'. cbn [orb Z.eqb assert_ bind].
+    exists o. split; [reflexivity|]. split; [exact Hwo|].
+    tc_fin Hfm (-1) (- val (s0 :: rb) - 1 + cb'). lia.
+  - tc_dead Hcb cb'. tc_m_nonzero Hfm m. tc_dead Hcr cr'. cbn [orb Z.eqb assert_ bind].
+    exists o. split; [rewrite firstn_app_exact by congruence; reflexivity|]. split; [exact Hwo|].
+    tc_fin Hfm (- val (r0 :: ra) - 1 + ca') (-1). lia.
 Qed.
